@@ -4,7 +4,8 @@
    [wf_fields]) is Wire/WireGrammar.v; the scanner is Wire/WireModel.v
    ([default_dep] = DefaultRecursionLimit + 1 = 10001 group levels). *)
 From Coq Require Import List NArith ZArith.
-From PB Require Import Base.PBytes Wire.WireModel Wire.WireGrammar Wire.VarintP Wire.ScanP.
+From PB Require Import Base.PBytes Base.GoInt Wire.WireModel Wire.WireGrammar Wire.VarintP Wire.ScanP.
+From PB Require Import Gen.WireGo Wire.WireGoP.
 Import ListNotations.
 Open Scope N_scope.
 
@@ -113,6 +114,76 @@ Theorem C02_consume_group_complete :
 Proof. exact consume_group_complete. Qed.
 Print Assumptions C02_consume_group_complete.
 
+(* ---- "the error is that of the first defect": the verdict is decided by the
+   bytes read so far.  (a) Appending bytes to the input changes nothing unless
+   the verdict was Truncated; (b) every proper prefix of a well-formed field is
+   Truncated.  So a non-Truncated error is caused by the shortest prefix that
+   produces it, and nothing but Truncated can be reported before a defect. ---- *)
+Theorem C02_verdict_decided_by_prefix :
+  forall bs ext,
+    match consume_field bs with
+    | Ok res => consume_field (bs ++ ext) = Ok res
+    | Err Truncated => True
+    | Err e => consume_field (bs ++ ext) = Err e
+    end.
+Proof. exact consume_field_ext. Qed.
+Print Assumptions C02_verdict_decided_by_prefix.
+
+Theorem C02_proper_prefix_is_truncated :
+  forall q ext num typ n,
+    wf_field default_dep (q ++ ext) num typ n -> N.of_nat (length q) < n -> consume_field q = Err Truncated.
+Proof. exact consume_field_prefix_truncated. Qed.
+Print Assumptions C02_proper_prefix_is_truncated.
+
+(* ---- ParseError: code -> error value (the Go function is regenerated and
+   proved equal to the table [parse_error]) ---- *)
+Theorem C02_parse_error_mapping :
+  (forall n, parse_error n = PNil <-> (0 <= n)%Z) /\
+  parse_error (werr_code Truncated) = PUnexpectedEOF /\
+  parse_error (werr_code FieldNumber) = PFieldNumber /\
+  parse_error (werr_code Overflow) = POverflow /\
+  parse_error (werr_code Reserved) = PReserved /\
+  parse_error (werr_code EndGroup) = PEndGroup /\
+  parse_error (werr_code RecursionDepth) = PParse /\
+  (forall e, parse_error (werr_code e) <> PNil).
+Proof. exact parse_error_mapping. Qed.
+Print Assumptions C02_parse_error_mapping.
+
+Theorem C02_go_ParseError : forall n, go_ParseError n = perr_go (parse_error n).
+Proof. exact go_ParseError_spec. Qed.
+Print Assumptions C02_go_ParseError.
+
+(* ---- Tier T: ConsumeVarint / ConsumeTag / ConsumeBytes of wire.go, regenerated
+   on every run, equal the model; in particular they never panic (the result
+   is a [Val]) and the error codes are those of the model ---- *)
+Theorem C02_go_ConsumeVarint :
+  forall bs, go_ConsumeVarint (zbytes bs) = Val (zres_vn (dec_varint bs) bs).
+Proof. exact go_ConsumeVarint_spec. Qed.
+Print Assumptions C02_go_ConsumeVarint.
+
+Theorem C02_go_ConsumeTag :
+  forall bs, go_ConsumeTag (zbytes bs) = Val (zres_tag (dec_tag bs) bs).
+Proof. exact go_ConsumeTag_spec. Qed.
+Print Assumptions C02_go_ConsumeTag.
+
+Theorem C02_go_ConsumeBytes :
+  forall bs, (Z.of_nat (length bs) < 2^63)%Z ->
+    go_ConsumeBytes (zbytes bs) = Val (zres_bytes (dec_bytes bs) bs).
+Proof. exact go_ConsumeBytes_spec. Qed.
+Print Assumptions C02_go_ConsumeBytes.
+
+(* the constants of wire.go are those the model uses *)
+Theorem C02_go_constants :
+  (c_VarintType = 0 /\ c_Fixed64Type = 1 /\ c_BytesType = 2 /\ c_StartGroupType = 3 /\
+   c_EndGroupType = 4 /\ c_Fixed32Type = 5 /\
+   c_errCodeTruncated = werr_code Truncated /\ c_errCodeFieldNumber = werr_code FieldNumber /\
+   c_errCodeOverflow = werr_code Overflow /\ c_errCodeReserved = werr_code Reserved /\
+   c_errCodeEndGroup = werr_code EndGroup /\ c_errCodeRecursionDepth = werr_code RecursionDepth /\
+   c_MinValidNumber = 1 /\ c_MaxValidNumber = 2^29 - 1 /\
+   Z.to_nat (c_DefaultRecursionLimit + 1) = default_dep)%Z.
+Proof. exact go_constants. Qed.
+Print Assumptions C02_go_constants.
+
 (* ---- non-vacuity ---- *)
 (* field 1, varint 150 written non-minimally in three bytes *)
 Example C02_ex_field_padded_varint : wf_field default_dep [x08; x96; x81; x00; xff] 1 0 4.
@@ -136,3 +207,12 @@ Example C02_ex_errors :
   consume_field [x0e] = Err Reserved /\ consume_field [x0b; x14] = Err EndGroup /\
   consume_field [x0c] = Err EndGroup /\ parse_val 1 1 3 [x0b; x0c; x0c] = Err RecursionDepth.
 Proof. vm_compute. repeat split; reflexivity. Qed.
+Example C02_ex_prefix :
+  consume_field [x0b; x12; x02; x61] = Err Truncated.
+Proof.
+  apply (C02_proper_prefix_is_truncated [x0b; x12; x02; x61] [x62; x1b; x1c; x8c; x00] 1 3 9).
+  - exact C02_ex_field_group.
+  - vm_compute. reflexivity.
+Qed.
+Example C02_ex_go_tag : go_ConsumeTag [0]%Z = Val (0, 0, -2)%Z.
+Proof. apply (C02_go_ConsumeTag [x00]). Qed.
